@@ -19,7 +19,7 @@ ASSUMPTIONS = ['ranges of different sets do not overlap; 32-bit DWARF format tab
 SEED = 0
 
 
-def build_aranges(ch, le):
+def build_aranges(ch, le, unit_offs=()):
     nsets = ch.pick('aranges.sets', [2, 1, 3, 0])
     amode = ch.pick('aranges.address_size', ['8', '4', 'mixed', 'mixed_4_first'])
     ntup = ch.pick('aranges.tuples', [2, 0, 1, 5])
@@ -36,7 +36,7 @@ def build_aranges(ch, le):
         n = ntup if (si > 0 or first_tuples == 'same') else first_tuples
         if si == 1 and second_tuples == 0:
             n = 0
-        info_off = 0x40 * si
+        info_off = unit_offs[si] if si < len(unit_offs) else 0x40 * si      # a real unit header where the file has one
         tuples = []
         for k in range(n):
             if shape == 'sorted':
@@ -62,7 +62,7 @@ def build_aranges(ch, le):
     return buf, sets, allr
 
 
-def build_names(ch, le, which):
+def build_names(ch, le, which, unit_offs=(), unit_sizes=()):
     nsets = ch.pick(which + '.sets', [2, 1, 3])
     nn = ch.pick(which + '.names', [2, 0, 1, 5])
     o = '<' if le else '>'
@@ -71,15 +71,16 @@ def build_names(ch, le, which):
     hdrs = []
     pool = ['main', 'naïve_é€', 'N' * 70, 'x', 'ns::fn(int, char const*)', 'operator<<', 'a b', 'Z9']
     for si in range(nsets):
-        cu_off = 0x30 * si + (0 if si else 0)
-        body = struct.pack(o + 'HII', 2, cu_off, 0x100 + si)
+        cu_off = unit_offs[si] if si < len(unit_offs) else 0x30 * si
+        cu_len = unit_sizes[si] if si < len(unit_sizes) else 0x100 + si
+        body = struct.pack(o + 'HII', 2, cu_off, cu_len)
         for k in range(nn):
             name = '%s%s' % (pool[(k + si) % len(pool)], '' if si == 0 else '_%d' % si)
             die = 0x0b + 7 * k + si
             body += struct.pack(o + 'I', die) + name.encode('utf-8') + b'\0'
             exp.append((name, cu_off, cu_off + die))
         body += struct.pack(o + 'I', 0)
-        hdrs.append(dict(unit_length=len(body), version=2, debug_info_offset=cu_off, debug_info_length=0x100 + si))
+        hdrs.append(dict(unit_length=len(body), version=2, debug_info_offset=cu_off, debug_info_length=cu_len))
         buf += struct.pack(o + 'I', len(body)) + body
     return buf, exp, hdrs
 
@@ -104,10 +105,11 @@ def build_info(ch, le):
 def run(ch):
     le = ch.free('data', [True, False])
     default_addr = ch.free('default_address_size', [8, 4])
-    ar, sets, allr = build_aranges(ch, le)
-    pn, pn_exp, pn_hdrs = build_names(ch, le, 'pubnames')
-    pt, pt_exp, pt_hdrs = build_names(ch, le, 'pubtypes')
     secs, units = build_info(ch, le)
+    uo, us = [u.offset for u in units], [u.size for u in units]
+    ar, sets, allr = build_aranges(ch, le, uo)
+    pn, pn_exp, pn_hdrs = build_names(ch, le, 'pubnames', uo, us)
+    pt, pt_exp, pt_hdrs = build_names(ch, le, 'pubtypes', uo, us)
     order = ch.pick('lookup_order', ['ascending', 'descending', 'interleaved'])
     secs = dict(secs)
     secs['.debug_aranges'] = ar
@@ -195,6 +197,20 @@ def run(ch):
     g = guarded(lambda: [cu.cu_offset for cu in dw2.iter_CUs()])
     if g != starts:
         fails.append(('iter_CUs() after out-of-order get_CU_at', starts, g))
+    # ---- lookup after sparse warm-ups: units fetched by offset leave holes in the unit cache; every offset must still find its owner
+    import itertools
+    warm = [c for r in range(1, len(starts) + 1) for c in itertools.combinations(starts, r)] + [tuple(reversed(c)) for c in itertools.combinations(starts, 2)]
+    for wu in warm:
+        if len(fails) > 6:
+            break
+        dw3 = dg.make_dwarfinfo(secs, le, default_addr)
+        for s_ in wu:
+            guarded(dw3.get_CU_at, s_)
+        for o_ in range(size):
+            g = guarded(lambda: dw3.get_CU_containing(o_).cu_offset)
+            if g != owner(o_):
+                fails.append(('get_CU_containing(%d) after get_CU_at%r' % (o_, tuple(wu)), owner(o_), g))
+                break
     # ---- get_DIE_from_lut_entry on a table that points at the real DIEs
     from elftools.dwarf.namelut import NameLUTEntry
     for u in units:
@@ -214,5 +230,5 @@ def spaces(tier, seed):
     k = 3 if tier == 'quick' else 5
     return [ChoiceSpace('lookup-tables', run, k, rule='free: byte order x container default address size; picks: aranges sets {2,1,3,0} x address size per set {8,4,mixed 8/4/8, mixed 4/8/4} x tuples '
                         '{2,0,1,5} x ranges {sorted, unsorted, adjacent, length 1} x first-set tuples (so that later sets start off their tuple alignment); pubnames/pubtypes sets {2,1,3} x names {2,0,1,5} '
-                        '(UTF-8, 70-byte, punctuation); info units {2,1,3} x parameters {same, mixed format, mixed version/address size}; lookup order {ascending, descending, interleaved}; queries: '
+                        '(UTF-8, 70-byte, punctuation); info units {2,1,3} x parameters {same, mixed format, mixed version/address size}; lookup order {ascending, descending, interleaved}; every offset again after every subset (and reversed pair) of unit starts was fetched by offset on a fresh object; queries: '
                         'every range boundary +-1, 0, 2^32-1, 2^64-1; every name; EVERY offset of .debug_info')]
